@@ -379,6 +379,11 @@ class Checker:
         self.failed = True
         self.res.viol(self.rule, '%s.%s' % (self.prefix, slot), where, detail, function=self.fn.sig, expr='%s.%s' % (self.prefix, slot), facts=facts)
 
+    def unknown(self, slot, where, detail):
+        """the code uses an I/O idiom the extractor does not model: the table cannot be compared"""
+        self.failed = True
+        self.res.undecided(self.rule, '%s.%s' % (self.prefix, slot), where, detail, function=self.fn.sig, expr='%s.%s' % (self.prefix, slot))
+
     def skip_slots(self):
         out = []
         while self.peek() is not None and self.peek()[0] == 'slot':
@@ -388,6 +393,9 @@ class Checker:
     # -- writer expectations ------------------------------------------------------------------
     def w_object(self, slot, width, vals=None, cases=None, src=None, tc=None, min_bits=None, cite=None):
         it = self.take(('io',))
+        if it is not None and (it[1].get('k') not in ('write',) or it[1].get('srck') == 'other'):
+            self.unknown(slot, self.where(it), 'output through %s of %s: not a write(&object, n) the extractor can tabulate' % (it[1].get('k'), it[1].get('src')))
+            return None
         if it is None or it[1].get('k') != 'write' or it[1].get('srck') != 'object':
             self.bad(slot, self.where(it), 'expected a write of a %d-byte field here, found %s' % (width, describe(it)), facts={'cite': cite})
             return None
@@ -1180,10 +1188,16 @@ def parameters_reader_rule(prog, res, rule='parameters-read'):
         w.bad('dispatch', w.where(alt), 'records must be dispatched on the sign of the id byte (negative = group), found %s' % describe(alt))
     else:
         th, el = io_only(alt[2]), io_only(alt[3])
+        def pos_of(r):
+            m_ = re.match(r'^this\.(?:group\((.*)\)|_groups\[(.*)\])$', r or '')
+            if not m_:
+                return None
+            x = m_.group(1) or m_.group(2)
+            return re.sub(r'\((?:unsigned long|size_t|unsigned int|int)\)', '', x).replace('((', '(').strip()
         okg = len(th) == 1 and th[0][0] == 'call' and th[0][1].qname.endswith('Group::read') and \
-            th[0][2].get('this') == 'this.group((unsigned long)(abs(%s) - 1))' % idv and th[0][2].get('arg1') == nl
+            pos_of(th[0][2].get('this')) in ('(abs(%s) - 1)' % idv, 'abs(%s) - 1)' % idv, '(abs(%s) - 1' % idv) and th[0][2].get('arg1') == nl
         okp = len(el) == 1 and el[0][0] == 'call' and el[0][1].qname.endswith('Group::parameter') and \
-            el[0][2].get('this') == 'this.group((unsigned long)(%s - 1))' % idv and el[0][2].get('arg1') == nl
+            pos_of(el[0][2].get('this')) in ('(%s - 1)' % idv, '%s - 1)' % idv, '(%s - 1' % idv, '(abs(%s) - 1)' % idv, 'abs(%s) - 1)' % idv, '(abs(%s) - 1' % idv) and el[0][2].get('arg1') == nl
         if okg and okp:
             w.ok('dispatch', w.where(alt), 'id < 0: group record into position |id|-1; id > 0: parameter record into group position id-1 (inverse of the writer\'s -(i+1))')
         else:
@@ -1349,11 +1363,16 @@ def frame_writer_rule(prog, res, rule='frame-write'):
     fl = only_loop(seq, r'^this\._frames\.size$')
     fc = only_call(fl[3], 'Frame::write') if fl else None
     if not fc:
-        res.viol(rule, inst, f.loc(), 'data writer is not one Frame::write per stored frame', function=f.sig, expr=inst)
+        res.undecided(rule, inst, f.loc(), 'data writer is not one Frame::write per stored frame: layout cannot be tabulated', function=f.sig, expr=inst)
         return
     parts = io_only(fc[3])
+    names = [p_[1].qname.split('::')[-2] for p_ in parts if p_[0] == 'call']
+    if names == ['Analogs', 'Points']:
+        res.viol(rule, 'frame.order', fc[1].loc(), 'a frame must be written as its points followed by its analogs (found analogs first)', function=fc[1].sig, expr='frame.order')
+        return
     if not (len(parts) == 2 and parts[0][0] == 'call' and parts[0][1].qname.endswith('Points::write') and parts[1][0] == 'call' and parts[1][1].qname.endswith('Analogs::write')):
-        res.viol(rule, 'frame.order', fc[1].loc(), 'a frame must be written as its points followed by its analogs', function=fc[1].sig, expr='frame.order')
+        res.undecided(rule, 'frame.order', fc[1].loc(), 'Frame::write does not delegate to Points::write and Analogs::write: layout cannot be tabulated (%s)' % [describe(p_) for p_ in parts][:3],
+                      function=fc[1].sig, expr='frame.order')
         return
     res.ok(rule, 'frame.order', fc[1].loc(), 'points, then analogs', function=fc[1].sig, expr='frame.order')
     pl = only_loop(parts[0][3], r'.*_points\._points\.size$')
